@@ -425,13 +425,15 @@ def write_evidence(prop: str, tier: str, seed: int, results: list[Result], wall:
     funcs = sorted({f for r in results for f in r.query.functions} | {f for m in m_results for f in m.get("functions", [])})
     stubs = sorted({f"{o} -> {s}" for r in results for (o, s) in r.query.stubs})
     replayed = len([r for r in results if r.replay is not None]) + len([m for m in m_results if m.get("native_replay")]) \
-        + sum(int(m.get("validated_traces", 0)) for m in m_results)
+        + sum(int(m.get("validated_traces", 0)) for m in m_results) \
+        + len([r for r in results if getattr(r, "witness", None)])
     cov = {
         # model_checking keys. The state space of a bounded model checking query is symbolic, so the honest counts are: "states" = verification
         # conditions that remained after CBMC's simplification (every assertion / panic / bounds / overflow / unwinding check instance on every
         # explored path) plus the paths engine M enumerated; "transitions" = symbolic execution steps of CBMC (size of the program expression)
         # plus the SMT queries engine M discharged; "traces_validated_against_impl" = solver counterexamples of this run that were replayed
-        # natively against the real code, plus the concrete traces engine M's translator validation ran through both the encoding and the real code.
+        # natively against the real code, plus the concrete traces engine M's translator validation / native batteries ran against the real code, plus
+        # the reachability witness of one passing Kani query executed as a native test (dev and release settings).
         "states": max(1, sum(r.vccs for r in results) + sum(int(m.get("paths", 0)) for m in m_results)),
         "transitions": max(1, sum(r.steps for r in results) + sum(int(m.get("solver_queries", 0)) for m in m_results)),
         "traces_validated_against_impl": replayed,
@@ -453,6 +455,9 @@ def write_evidence(prop: str, tier: str, seed: int, results: list[Result], wall:
         "bounds": extra.get("bounds", ""),
         "outside_claim": extra.get("outside", ""),
     }
+    wit = [r.witness for r in results if getattr(r, "witness", None)]
+    if wit:
+        cov["native_witnesses"] = wit
     for k in ("known_findings_reported", "translator_validation"):
         if k in extra:
             cov[k] = extra[k]
